@@ -91,10 +91,18 @@ def build(case, initialize=True):
             if len(present) != len(con['choices']):
                 b.cons_opts.append(None)
                 continue
+            if con.get('pass_seed') is not None:
+                # the caller may name the choices in any order: the constraint is stated over the graph's choice order
+                import random as _r
+                _r.Random(con['pass_seed']).shuffle(present)
             g = g.constrain_choices(t, present)
             cc = g.get_choice_constraints()[-1]
-            b.cons_opts.append({'nodes': [b.ident[n] for n in cc.nodes],
-                                'options': None if cc.options is None else [[b.ident[o] for o in ol] for ol in cc.options]})
+            co_nodes = [b.ident[n] for n in cc.nodes]
+            co_opts = None if cc.options is None else [[b.ident[o] for o in ol] for ol in cc.options]
+            # the model is given the constrained choices in choice order (decision id), whatever the code stored
+            perm = sorted(range(len(co_nodes)), key=lambda k: 'S%02d' % co_nodes[k])
+            b.cons_opts.append({'nodes': [co_nodes[k] for k in perm],
+                                'options': None if co_opts is None else [co_opts[k] for k in perm]})
     b.dsg = g
     return b
 
@@ -279,6 +287,8 @@ def gen_sel(rng, max_nodes=12, max_choices=4, max_opts=4, n_incompat=None, cons_
             chosen = rng.sample(sel, rng.randint(2, min(3, len(sel))))
         t = rng.choice(['linked', 'permutation', 'unordered', 'norepl'])
         cons.append({'type': t, 'choices': sorted(c['id'] for c in chosen)})
+        if rng.random() < 0.4:
+            cons[-1]['pass_seed'] = rng.randrange(1 << 16)
     case = {'n': n, 'edges': edges, 'sel': sel, 'start': start, 'incompat': incompat, 'cons': cons}
     if rng.random() < 0.5:
         case['order'] = rng.randrange(1 << 30)
@@ -348,6 +358,8 @@ def gen_layered(rng, cons_prob=0.0):
         ids = [sc['id'] for sc in sel[:n_sys]]
         chosen = sorted(rng.sample(ids, 2))
         cons.append({'type': rng.choice(['linked', 'linked', 'permutation', 'unordered', 'norepl']), 'choices': chosen})
+        if rng.random() < 0.4:
+            cons[-1]['pass_seed'] = rng.randrange(1 << 16)
         if rng.random() < 0.7:
             incompat = []
     case = {'n': nid[0], 'edges': edges, 'sel': sel, 'start': [root], 'incompat': incompat, 'cons': cons}
@@ -392,6 +404,9 @@ def gen_flat_cons(rng):
              'choices': sorted(ids[k] for k in (n_link, n_link + 1))}]
     if rng.random() < 0.3:
         cons.reverse()
+    for con in cons:
+        if rng.random() < 0.4:
+            con['pass_seed'] = rng.randrange(1 << 16)
     case = {'n': nid[0], 'edges': edges, 'sel': sel, 'start': [root], 'incompat': [], 'cons': cons}
     if rng.random() < 0.5:
         case['order'] = rng.randrange(1 << 30)
